@@ -76,24 +76,24 @@ type Violation struct {
 }
 
 type Run struct {
-	T       *testing.T
-	ID      string
-	Seed    uint64
-	Tier    string
-	OutDir  string
-	Rng     *Rng
-	ops     *bufio.Writer
-	obs     *bufio.Writer
-	fops    *os.File
-	fobs    *os.File
-	nOps    int
-	hits    map[string]int
-	classes map[string]bool
-	nontriv map[string]bool
-	viol    []Violation
-	samples []string
-	extra   map[string]any
-	traces  int
+	T        *testing.T
+	ID       string
+	Seed     uint64
+	Tier     string
+	OutDir   string
+	Rng      *Rng
+	ops      *bufio.Writer
+	obs      *bufio.Writer
+	fops     *os.File
+	fobs     *os.File
+	nOps     int
+	hits     map[string]int
+	classes  map[string]bool
+	nontriv  map[string]bool
+	viol     []Violation
+	samples  []string
+	extra    map[string]any
+	traces   int
 	curTrace []string
 	// AutoClass: stateless protocols — each distinct op line is a case; non-trivial iff not an error
 	AutoClass bool
@@ -173,6 +173,7 @@ func (r *Run) Class(key string, nontrivial bool) {
 		r.nontriv[key] = true
 	}
 }
+
 // Trace marks the end of one trace.  With VERIF_C18 set, the application the trace ran on (the most
 // recent fixture) additionally goes through the generic genesis export / import comparison.
 func (r *Run) Trace() {
@@ -182,8 +183,8 @@ func (r *Run) Trace() {
 	}
 	r.curTrace = nil
 }
-func (r *Run) Set(k string, v any)   { r.extra[k] = v }
-func (r *Run) Violations() int       { return len(r.viol) }
+func (r *Run) Set(k string, v any) { r.extra[k] = v }
+func (r *Run) Violations() int     { return len(r.viol) }
 func (r *Run) Violate(sig, detail string, replay ...string) {
 	for _, v := range r.viol {
 		if v.Signature == sig && len(v.Replay) <= len(replay) {
